@@ -67,12 +67,12 @@ def member? : Sexp → Option Member
     pure (.prop (← str? n) (← access? a) (← bool? s) (← bool? r) (← optStr? t) (← optInit? i))
   | .list [.atom "method", n, a, s, k, f] => do
     pure (.method (← str? n) (← access? a) (← bool? s) (← kind? k) (← fn? f))
-  | .list [.atom "ctor", a, .list ps, b, sup] => do
+  | .list [.atom "ctor", a, .list ps, b, sup, ov] => do
     let ps ← ps.mapM fun
       | .list [p, .atom "-"] => do pure ({ p := ← param? p, prop := none } : CtorParam)
       | .list [p, .list [a, ro]] => do pure ({ p := ← param? p, prop := some (← access? a, ← bool? ro) } : CtorParam)
       | _ => none
-    pure (.ctor (← access? a) ps (← bool? b) (← bool? sup))
+    pure (.ctor (← access? a) ps (← bool? b) (← bool? sup) (← bool? ov))
   | .list [.atom "accessor", n, a, st, t, i] => do
     let init ← match i with
       | .atom "-" => some none
